@@ -17,6 +17,8 @@ Decided by the TLC-enumerated reference (exact expected values):
                           times), also after scaling and change_duration
   pulse                   accept / reject (negative amplitude, unequal lengths), phase and
                           post-phase-shift modulo 2 pi
+  (wf, interp, dur, win, pulse also run the clause read_is_pure: after scribbling in place over every
+   handle wf.samples / wf[a:b] gives out, all observables are unchanged and equal a fresh twin)
   arb                     Pulse.ArbitraryPhase: phi(t) = phi_c - sum_{k<=t} delta(k) reproduces the
                           phase waveform at every sample (directly and through
                           ChannelSamples.phase_modulation of a sampled sequence)
@@ -190,6 +192,56 @@ def exp_samples(s):
 
 
 # ------------------------------------------------------------------------------------------------
+# reading is not an operation: a waveform keeps its `duration` documented samples for every history
+# of reads.  The caller scribbles in place over every handle a read gives out (handles that refuse
+# writes are ignored); afterwards every observable must be what it was and equal a fresh twin.
+
+HANDLES = [("abstract_array", lambda a: a), ("as_array", lambda a: a.as_array()),
+           ("as_array_detach", lambda a: a.as_array(detach=True)), ("np_asarray", lambda a: np.asarray(a))]
+PROBE_SLICE_VIEWS = True     # also scribble over what wf[a:b] returns (see C16.NOTES.md, finding 5)
+
+
+def _scribble(t):
+    n = len(t)
+    t[0] = 1007.0
+    t[n - 1] = -3000.0
+    t[n // 2] = 55.5
+    if isinstance(t, np.ndarray):
+        t *= -2.0
+        np.add(t, 1.0, out=t)
+
+
+def read_purity(C, wf, twin, det, read="samples"):
+    """Clause read_is_pure for one waveform `wf`, one kind of read ("samples": wf.samples;
+    "getitem_slice": wf[0:d]) and a freshly built equal `twin`.  On a tree where that read leaks the
+    cached samples `wf` is corrupted afterwards: callers use a dedicated object for the slice probe and
+    run the samples probe before deriving further observables from the same object."""
+    if read == "getitem_slice" and not PROBE_SLICE_VIEWS:
+        return
+    cls = type(wf).__name__
+    before = arr(wf.samples).copy()
+    if not np.all(np.isfinite(before)) or len(before) == 0:
+        return
+    fv, lv, integ = wf.first_value, wf.last_value, wf.integral
+    d = len(before)
+    rd = (lambda: wf.samples) if read == "samples" else (lambda: wf[0:d])
+    for hname, h in HANDLES:
+        try:
+            _scribble(h(rd()))
+        except Exception:  # noqa: BLE001  this handle refuses in-place writes: fine
+            pass
+        after = arr(wf.samples)
+        same = after.shape == before.shape and np.array_equal(after, before)
+        same = same and wf.first_value == fv and wf.last_value == lv and wf.integral == integ
+        same = same and np.array_equal(arr(wf[0:d]), before) and float(wf[0]) == before[0]
+        if not C.ok(same, {"clause": "read_is_pure", "read": read, "handle": hname, "cls": cls},
+                    {**det, "before": before.tolist()[:8], "after": after.tolist()[:8]}):
+            return
+    C.ok(bool(wf == twin) and bool(twin == wf) and np.array_equal(arr(twin.samples), before),
+         {"clause": "read_is_pure", "read": read, "handle": "any", "observable": "equality_with_twin", "cls": cls}, det)
+
+
+# ------------------------------------------------------------------------------------------------
 # families decided by the reference
 
 def f_wf(r, C):
@@ -206,6 +258,17 @@ def f_wf(r, C):
     C.ok(close(w.integral, r["sum"] / SU * 1e-3, atol=1e-12), {"clause": "integral", "cls": cls},
          {**det, "got": w.integral, "exp": r["sum"] / SU * 1e-3})
     C.ok(w.duration == r["d"] == len(w.samples), {"clause": "sample_count", "cls": cls}, det)
+    # change_duration / scaling results must not depend on earlier reads either: derive them AFTER the
+    # scribbling from the same object and compare with the twin's
+    twin = build(r["w"])
+    read_purity(C, w, twin, det, "samples")
+    if np.all(np.isfinite(arr(twin.samples))):
+        C.ok(close(arr((w * 2).samples), 2 * exp) and close(arr(((w * 2) / 2).samples), exp),
+             {"clause": "read_is_pure", "read": "samples", "handle": "any", "observable": "scaling", "cls": cls}, det)
+        if r["w"][0] in ("c", "r") and r["d"] > 1:
+            C.ok(close(arr(w.change_duration(r["d"]).samples), exp),
+                 {"clause": "read_is_pure", "read": "samples", "handle": "any", "observable": "change_duration", "cls": cls}, det)
+    read_purity(C, build(r["w"]), twin, det, "getitem_slice")
 
 
 def f_mul(r, C):
@@ -375,6 +438,10 @@ def f_interp(r, C):
                 C.finite(w2, {**detk, "nd": nd}, nd)
             else:
                 _interp_points(w2, r["npos"], vals, C, {**detk, "nd": nd, "dnow": nd}, "change_duration")
+        if not nd:
+            tw = _interp(d, vals, ts, **kw)
+            read_purity(C, w, tw, detk, "samples")
+            read_purity(C, _interp(d, vals, ts, **kw), tw, detk, "getitem_slice")
 
 
 def f_pulse(r, C):
@@ -383,11 +450,11 @@ def f_pulse(r, C):
     if not (np.all(np.isfinite(sa)) and np.all(np.isfinite(sd))):
         return          # reported by the finite_samples clause
     ph, pps = r["ph"] * np.pi / 4, r["pps"] * np.pi / 4
-    ctors = [("Pulse", lambda: Pulse(amp, dt, ph, pps))]
+    ctors = [("Pulse", lambda: Pulse(build(r["amp"]), build(r["det"]), ph, pps))]
     if r["amp"][0] == "c" and r["amp"][1] == dt.duration:
-        ctors.append(("ConstantAmplitude", lambda: Pulse.ConstantAmplitude(r["amp"][2] * U, dt, ph, pps)))
+        ctors.append(("ConstantAmplitude", lambda: Pulse.ConstantAmplitude(r["amp"][2] * U, build(r["det"]), ph, pps)))
     if r["det"][0] == "c" and r["det"][1] == amp.duration:
-        ctors.append(("ConstantDetuning", lambda: Pulse.ConstantDetuning(amp, r["det"][2] * U, ph, pps)))
+        ctors.append(("ConstantDetuning", lambda: Pulse.ConstantDetuning(build(r["amp"]), r["det"][2] * U, ph, pps)))
     if r["amp"][0] == "c" and r["det"][0] == "c" and r["amp"][1] == r["det"][1]:
         ctors.append(("ConstantPulse", lambda: Pulse.ConstantPulse(r["amp"][1], r["amp"][2] * U, r["det"][2] * U, ph, pps)))
     for name, mk in ctors:
@@ -409,6 +476,13 @@ def f_pulse(r, C):
         C.ok(circ_close(phv, r["phm"] * np.pi / 4), {"clause": "pulse_phase_value"}, {**det, "phase": repr(phv)})
         C.ok(circ_close(float(p.post_phase_shift), r["ppsm"] * np.pi / 4) and 0 <= float(p.post_phase_shift) <= TWO_PI,
              {"clause": "pulse_post_phase_shift"}, {**det, "pps": repr(float(p.post_phase_shift))})
+        # reads of the pulse's waveforms are pure as well (the pulse keeps non-negative amplitude etc.)
+        twin_p = mk()
+        read_purity(C, p.amplitude, twin_p.amplitude, {**det, "of": "Pulse.amplitude"}, "samples")
+        read_purity(C, p.detuning, twin_p.detuning, {**det, "of": "Pulse.detuning"}, "samples")
+        C.ok(close(arr(p.amplitude.samples), sa) and close(arr(p.detuning.samples), sd) and bool(p == twin_p)
+             and np.all(arr(p.amplitude.samples) >= 0),
+             {"clause": "read_is_pure", "read": "samples", "handle": "any", "observable": "pulse", "ctor": name}, det)
 
 
 SPECIAL_PHASES = {
@@ -507,6 +581,9 @@ def f_dur(r, C):
         C.ok(math.isfinite(w.integral) and math.isfinite(w.first_value) and math.isfinite(w.last_value)
              and w.first_value == s[0] and w.last_value == s[-1],
              {"clause": "first_last_value", "cls": type(w).__name__}, det)
+        tw = DUR_VARIANTS[cls][var - 1](d)
+        read_purity(C, w, tw, det, "samples")
+        read_purity(C, DUR_VARIANTS[cls][var - 1](d), tw, det, "getitem_slice")
 
 
 def _window(cls, d, area, beta):
@@ -546,6 +623,9 @@ def f_win(r, C):
         ref = arr(_window(cls, nd, area, beta).samples)     # same area (and beta), new duration
         C.ok(type(w2) is type(w) and abs(w2.integral - area) <= 1e-9 * abs(area) and close(s2, ref, atol=1e-12),
              {"clause": "change_duration", "cls": name}, {**det, "nd": nd, "integral": w2.integral})
+    tw = _window(cls, d, area, beta)
+    read_purity(C, w, tw, det, "samples")
+    read_purity(C, _window(cls, d, area, beta), tw, det, "getitem_slice")
 
 
 def _peak(cls, d, area, beta):
